@@ -44,6 +44,20 @@ func layout(r *core.Rand) string {
 	return "inplace"
 }
 
+// additional data: often absent, mostly short, sometimes longer than any block / buffer size
+// an implementation might silently clip at
+func genAD(r *core.Rand) []byte {
+	switch r.Pick(40, 40, 13, 7) {
+	case 0:
+		return nil
+	case 1:
+		return r.Bytes(r.Range(1, 24))
+	case 2:
+		return r.Bytes([]int{31, 32, 33, 63, 64, 65, 127, 128, 129}[r.Intn(9)])
+	}
+	return r.Bytes(r.Range(130, 300))
+}
+
 func genNonce(r *core.Rand) []byte {
 	switch r.Pick(70, 6, 24) {
 	case 0:
@@ -187,7 +201,7 @@ func genCBCDec(r *core.Rand) string {
 func genGCMDec(r *core.Rand) string {
 	key := genKey(r, 92)
 	nonce := genNonce(r)
-	ad := r.Bytes(r.Pick(3, 1, 1, 1) * r.Range(0, 20))
+	ad := genAD(r)
 	pt := r.Bytes(genLen(r))
 	ct := append([]byte{}, pt...)
 	if blk, err := aes.NewCipher(key); err == nil && len(nonce) > 0 {
@@ -238,13 +252,67 @@ func genLine(r *core.Rand) string {
 	case 3:
 		return genCBCDec(r)
 	case 4:
-		return fmt.Sprintf("gcmenc %s %s %s %s %s", layout(r), hx(genKey(r, 92)), hx(genNonce(r)), hx(r.Bytes(r.Intn(2)*r.Range(0, 24))), hx(r.Bytes(genLen(r))))
+		return fmt.Sprintf("gcmenc %s %s %s %s %s", layout(r), hx(genKey(r, 92)), hx(genNonce(r)), hx(genAD(r)), hx(r.Bytes(genLen(r))))
 	}
 	return genGCMDec(r)
 }
 
+// offSize: a dst size deviation, biased to whole blocks and the tag size
+func offSize(r *core.Rand) string {
+	k := []int{1, 2, 15, 16, 16, 16, 17, 32, 5, 8}[r.Intn(10)]
+	if r.Chance(35) {
+		return fmt.Sprintf("-%d", k)
+	}
+	return fmt.Sprintf("+%d", k)
+}
+
+func genOffDst(r *core.Rand) string {
+	key := genKey(r, 96)
+	switch r.Pick(30, 30, 20, 20) {
+	case 0:
+		lay := "fresh"
+		if r.Bool() {
+			lay = "inplace"
+		}
+		pt := r.Bytes(genLen(r))
+		off := offSize(r)
+		if lay == "inplace" && off[0] == '-' {
+			// the buffer must at least hold the plaintext
+			k := 16 - len(pt)%16
+			off = fmt.Sprintf("-%d", 1+r.Intn(k))
+		}
+		return fmt.Sprintf("cbcenc %s%s %s %s %s", lay, off, hx(key), hx(r.Bytes(16)), hx(pt))
+	case 1:
+		iv := r.Bytes(16)
+		p := genNearValidPadded(r, 16, 4)
+		return fmt.Sprintf("cbcdec fresh%s %s %s %s", offSize(r), hx(key), hx(iv), hx(rawCBC(key, iv, p)))
+	case 2:
+		return fmt.Sprintf("gcmenc fresh%s %s %s %s %s", offSize(r), hx(key), hx(r.Bytes(12)), hx(r.Bytes(r.Intn(2)*r.Range(0, 12))), hx(r.Bytes(genLen(r))))
+	}
+	nonce := r.Bytes(12)
+	ad := r.Bytes(r.Intn(2) * r.Range(0, 12))
+	pt := r.Bytes(genLen(r))
+	ct := append([]byte{}, pt...)
+	if blk, err := aes.NewCipher(key); err == nil {
+		if g, err := cipher.NewGCM(blk); err == nil {
+			ct = g.Seal(nil, nonce, pt, ad)
+		}
+	}
+	return fmt.Sprintf("gcmdec fresh%s %s %s %s %s", offSize(r), hx(key), hx(nonce), hx(ad), hx(ct))
+}
+
 func gen(r *core.Rand, tier string) core.Case {
 	lines := []string{"@ C08 x"}
+	if r.Chance(6) {
+		// dst longer / shorter than documented: the library then encrypts / un-pads the WHOLE
+		// dst (CBC) or Seal/Open allocate and leave dst alone (GCM, dst too short); only the
+		// model/code agreement is checked for these
+		lines = append(lines, genOffDst(r))
+		if r.Bool() {
+			lines = append(lines, genOffDst(r))
+		}
+		return core.Case{Lines: lines, Tag: "offcontract"}
+	}
 	if r.Chance(2) {
 		// outside the documented contract (IV not 16 bytes): crypto/cipher panics; only the
 		// model/code agreement is checked for these
@@ -365,6 +433,36 @@ func corpus() []core.Case {
 		}
 	}
 	add(ls...)
+	// dst longer / shorter than documented (off contract, model comparison only): the hazards are
+	// (a) a block-aligned plaintext with dst = len(plaintext): encrypted WITHOUT padding, no error;
+	// (b) dst longer by whole blocks: the tail of dst is encrypted too / un-padded instead of the text;
+	// (c) dst not a multiple of 16 / shorter than the input: crypto/cipher panics;
+	// (d) GCM with a dst that is too short: Seal/Open allocate, dst is left untouched, no error.
+	ls = nil
+	for _, n := range []int{0, 1, 15, 16, 17, 32} {
+		pt := seqBytes(n, 1)
+		for _, off := range []string{"+1", "+15", "+16", "+32", "-1", "-15", "-16"} {
+			ls = append(ls, fmt.Sprintf("cbcenc fresh%s %s %s %s", off, hx(key), hx(iv), hx(pt)))
+			ls = append(ls, fmt.Sprintf("gcmenc fresh%s %s %s - %s", off, hx(key), hx(seqBytes(12, 2)), hx(pt)))
+		}
+		for _, off := range []string{"+1", "+16", "-1"} {
+			if off[0] == '-' && n%16 == 15 {
+				continue
+			}
+			ls = append(ls, fmt.Sprintf("cbcenc inplace%s %s %s %s", off, hx(key), hx(iv), hx(pt)))
+		}
+		ct := rawCBC(key, iv, stdPad16(pt))
+		for _, off := range []string{"+1", "+2", "+15", "+16", "+17", "+32", "-1", "-16"} {
+			ls = append(ls, fmt.Sprintf("cbcdec fresh%s %s %s %s", off, hx(key), hx(iv), hx(ct)))
+		}
+		blk, _ := aes.NewCipher(key)
+		g, _ := cipher.NewGCM(blk)
+		sealed := g.Seal(nil, seqBytes(12, 2), pt, nil)
+		for _, off := range []string{"+1", "+16", "-1", "-16"} {
+			ls = append(ls, fmt.Sprintf("gcmdec fresh%s %s %s - %s", off, hx(key), hx(seqBytes(12, 2)), hx(sealed)))
+		}
+	}
+	cs = append(cs, core.Case{Lines: append([]string{"@ C08 x"}, ls...), Tag: "offcontract"})
 	return cs
 }
 
@@ -410,7 +508,7 @@ func extraBitFlips(ctx *core.Ctx) (int, string, []core.ExtraFailure) {
 	for m := 0; m < msgs; m++ {
 		key := r.Bytes([]int{16, 24, 32}[m%3])
 		nonce := r.Bytes([]int{12, 12, 8, 16}[m%4])
-		ad := r.Bytes(r.Range(0, 20))
+		ad := r.Bytes((m % 2) * r.Range(1, 20))
 		pt := r.Bytes(genLen(r))
 		ct := make([]byte, cryptz.AESGCMEncryptLen(pt))
 		if err := cryptz.AESGCMEncrypt(ct, pt, key, nonce, ad); err != nil {
@@ -418,27 +516,70 @@ func extraBitFlips(ctx *core.Ctx) (int, string, []core.ExtraFailure) {
 			continue
 		}
 		try := func(what string, ct2, nonce2, ad2 []byte) {
-			evals++
-			dst := make([]byte, len(pt))
-			err := cryptz.AESGCMDecrypt(dst, append([]byte{}, ct2...), key, nonce2, ad2)
-			if err == nil && len(fails) < 3 {
-				fails = append(fails, core.ExtraFailure{
-					Failure: core.Failure{Key: "gcm-decrypt-accepts-forgery", Desc: "AESGCMDecrypt accepted a message after flipping one bit of the " + what},
-					Payload: map[string]any{"lines": []string{"@ C08 x", fmt.Sprintf("gcmdec fresh %s %s %s %s", hx(key), hx(nonce2), hx(ad2), hx(ct2))}},
+			for _, lay := range []string{"fresh", "inplace"} {
+				evals++
+				in := append([]byte{}, ct2...)
+				n := cryptz.AESGCMDecryptLen(in)
+				if n < 0 {
+					n = 0
+				}
+				dst := make([]byte, n)
+				if lay == "inplace" {
+					dst = in[:n]
+				}
+				var err error
+				res := core.Guard(func() string {
+					err = cryptz.AESGCMDecrypt(dst, in, key, append([]byte{}, nonce2...), append([]byte{}, ad2...))
+					return "ok"
 				})
+				if (err == nil || res == "panic") && len(fails) < 3 {
+					k, dsc := "gcm-decrypt-accepts-forgery", "AESGCMDecrypt accepted a message after "+what
+					if res == "panic" {
+						k, dsc = "gcmdec-panic", "AESGCMDecrypt panicked after "+what
+					}
+					fails = append(fails, core.ExtraFailure{
+						Failure: core.Failure{Key: k, Desc: dsc},
+						Payload: map[string]any{"lines": []string{"@ C08 x", fmt.Sprintf("gcmdec %s %s %s %s %s", lay, hx(key), hx(nonce2), hx(ad2), hx(ct2))}},
+					})
+				}
 			}
 		}
-		flips := func(what string, b []byte, f func(x []byte)) {
+		flips := func(b []byte, f func(x []byte, bit int)) {
 			for i := 0; i < len(b)*8; i++ {
 				x := append([]byte{}, b...)
 				x[i/8] ^= 1 << (i % 8)
-				f(x)
+				f(x, i)
 			}
-			_ = what
 		}
-		flips("ct", ct, func(x []byte) { try("ciphertext/tag", x, nonce, ad) })
-		flips("nonce", nonce, func(x []byte) { try("nonce", ct, x, ad) })
-		flips("ad", ad, func(x []byte) { try("additional data", ct, nonce, x) })
+		flips(ct, func(x []byte, bit int) {
+			what := "flipping one bit of the ciphertext"
+			if bit/8 >= len(ct)-16 {
+				what = "flipping one bit of the tag"
+			}
+			try(what, x, nonce, ad)
+		})
+		flips(nonce, func(x []byte, _ int) { try("flipping one bit of the nonce", ct, x, ad) })
+		flips(ad, func(x []byte, _ int) { try("flipping one bit of the additional data", ct, nonce, x) })
+		// truncation at every length (also below the tag size, also to nothing), one byte
+		// dropped at the front, extension by one byte / one block, AD and nonce shortened or
+		// extended by one byte, AD dropped altogether / invented
+		for n := 0; n < len(ct); n++ {
+			try(fmt.Sprintf("truncating ciphertext‖tag to %d of %d bytes", n, len(ct)), ct[:n], nonce, ad)
+		}
+		try("dropping the first byte", ct[1:], nonce, ad)
+		try("appending one zero byte", append(append([]byte{}, ct...), 0), nonce, ad)
+		try("appending a block", append(append([]byte{}, ct...), ct[len(ct)-16:]...), nonce, ad)
+		try("appending a zero byte to the additional data", ct, nonce, append(append([]byte{}, ad...), 0))
+		if len(ad) > 0 {
+			try("truncating the additional data", ct, nonce, ad[:len(ad)-1])
+			try("dropping the additional data", ct, nonce, nil)
+		} else {
+			try("inventing additional data", ct, nonce, []byte{0})
+		}
+		try("appending a zero byte to the nonce", ct, append(append([]byte{}, nonce...), 0), ad)
+		if len(nonce) > 1 {
+			try("truncating the nonce", ct, nonce[:len(nonce)-1], ad)
+		}
 		// and the untouched message still opens
 		evals++
 		dst := make([]byte, len(pt))
@@ -446,5 +587,41 @@ func extraBitFlips(ctx *core.Ctx) (int, string, []core.ExtraFailure) {
 			fails = append(fails, core.ExtraFailure{Failure: core.Failure{Key: "gcm-decrypt-wrong", Desc: "round trip failed"}})
 		}
 	}
-	return evals, fmt.Sprintf("%d messages × every single-bit flip of ciphertext‖tag, nonce, AD: all rejected (exercised, cryptographic clause is partial)", msgs), fails
+	return evals, fmt.Sprintf("%d messages (AD non-empty in every second one) × {every single-bit flip of ciphertext, tag, nonce, AD; truncation at every length; one-byte/one-block extension; AD/nonce one byte shorter/longer} × {fresh, in-place}: all rejected, none panics (exercised; the cryptographic clause is partial)", msgs), fails
+}
+
+// plaintexts far longer than the 0..80 bytes of the correspondence stream (the Lean AES is too
+// slow for them): sizes around 255/256, 4 KiB, 64 KiB, both layouts, all key sizes, against
+// crypto/cipher only.  Guards against anything that clips or wraps a length (uint8/uint16,
+// a fixed scratch buffer).
+func extraLargeInputs(ctx *core.Ctx) (int, string, []core.ExtraFailure) {
+	r := ctx.Rand.Fork()
+	sizes := []int{254, 255, 256, 257, 1023, 4095, 4096, 4097, 65535, 65536, 65537}
+	evals := 0
+	var fails []core.ExtraFailure
+	for i, n := range sizes {
+		key := r.Bytes([]int{16, 24, 32}[i%3])
+		iv, nonce, ad := r.Bytes(16), r.Bytes(12), r.Bytes((i%2)*n)
+		pt := r.Bytes(n)
+		for _, lay := range []string{"fresh", "inplace"} {
+			lines := []string{"@ C08 x",
+				fmt.Sprintf("enclen %d", n),
+				fmt.Sprintf("cbcenc %s %s %s %s", lay, hx(key), hx(iv), hx(pt)),
+				fmt.Sprintf("cbcdec %s %s %s %s", lay, hx(key), hx(iv), hx(rawCBC(key, iv, stdPad16(pt)))),
+				fmt.Sprintf("gcmenc %s %s %s %s %s", lay, hx(key), hx(nonce), hx(ad), hx(pt))}
+			blk, _ := aes.NewCipher(key)
+			g, _ := cipher.NewGCM(blk)
+			lines = append(lines, fmt.Sprintf("gcmdec %s %s %s %s %s", lay, hx(key), hx(nonce), hx(ad), hx(g.Seal(nil, nonce, pt, ad))))
+			c := core.Case{Lines: lines}
+			out := impl(c)
+			evals += len(lines) - 1
+			if f := check(c, out); f != nil && len(fails) < 3 {
+				if len(f.Desc) > 300 {
+					f.Desc = f.Desc[:300] + "…"
+				}
+				fails = append(fails, core.ExtraFailure{Failure: *f, Payload: map[string]any{"plaintext_len": n, "layout": lay, "key": hx(key), "iv": hx(iv), "nonce": hx(nonce)}})
+			}
+		}
+	}
+	return evals, fmt.Sprintf("plaintext sizes %v × {fresh, in-place} × key sizes: length helper, AESCBCEncrypt/Decrypt, AESGCMEncrypt/Decrypt (AD as long as the plaintext in every second one) equal crypto/cipher", sizes), fails
 }
